@@ -653,7 +653,7 @@ def spec_step(ss, i, o, a):
     if o == "copy":
         if not s.conv():
             return [DISC]
-        s.cur = len(s.body)
+        s.cur = 0                  # the shared input is rewound after the copy was taken (fixes/C10-3)
         ss.append(SReq(s.body, 0, "held", False, s.form))
         ss[-1].charset = s.charset
         return [1]
@@ -727,6 +727,13 @@ def ref_form(b):
 
 
 NEG_KEY = "negative-content-length-treated-as-readable"
+# deviations from the property TEXT that the model and the reference machine reproduce on purpose (they describe what
+# the code does); the oracle reports them under these keys and goes on with the history
+KEY_PARTIAL_DISC = "partial-body_file-read-then-whole-body:disconnection-error"
+KEY_PARTIAL_REST = "partial-body_file-read-then-whole-body:remainder-only"
+KEY_SEEKABLE_UNLIMITED = "seekable-input:body_file-unlimited"
+KEY_COPY_EOF = "copy:leaves-original-at-eof"
+CAPTURE_OPS = ("body", "sread", "copy", "post", "make_seekable", "copy_body", "asbytes", "gettext")
 
 
 def classify(cfg, o, got, acc, neg=False):
@@ -790,6 +797,11 @@ class Run:
         self.slots = [Slot(r0, raw, cfg)]
         self.ss = [spec_init(cfg)]
         self.k = 0
+        self.side = []          # known deviations from the text met on the way (key, message)
+
+    def result(self, res):
+        """a failure outranks the known deviations; otherwise the first deviation met"""
+        return res or (self.side[0] if self.side else None)
 
     @classmethod
     def from_request(cls_, req, sreq, cfg, raw=None, tag=""):
@@ -798,6 +810,7 @@ class Run:
         run = cls_.__new__(cls_)
         run.DE, run.cfg, run.tag, run.cls = wr.DisconnectionError, cfg, tag, type(req)
         run.slots, run.ss, run.k = [Slot(req, raw, None)], [sreq], 0
+        run.side = []
         return run
 
     def finish(self):
@@ -972,10 +985,22 @@ class Run:
             got = fw.Err(type(e).__name__)
         if new is not None:
             self.slots.append(Slot(new, None, None))
+        copy_pos = r.body_file_raw.tell() if (o == "copy" and new is not None and hasattr(r.body_file_raw, "tell")) else 0
         where = "%sstep %d %s(%r) on request %d%s" % (self.tag, self.k - 1, o, a if not isinstance(a, bytes) or len(a) < 20 else len(a), i,
                                                    "" if not via else " through wrapper %d" % via)
         if final:
             where = "%sclosing .body on request %d" % (self.tag, i)
+        # ---- the property text gives the whole body to every whole-body path in every sequence; after k > 0 bytes of a
+        #      NON-seekable body went out through .body_file the code cannot: DisconnectionError with a declared length,
+        #      only the remainder without one.  Reported as a known deviation; the history goes on as the code does.
+        if s.cur > 0 and s.mode in ("raw", "term") and o in CAPTURE_OPS and not final and \
+                not (o == "post" and (s.post or not s.form or s.charset != "UTF-8")):
+            if s.mode == "raw" and got == DISC and s.cur < len(s.body) + 1:
+                self.side.append((KEY_PARTIAL_DISC, "%s: DisconnectionError although the stream is complete (%d of %d bytes "
+                                  "had been read through .body_file before)" % (where, s.cur, len(s.body))))
+            elif s.mode == "term" and got != DISC and not isinstance(got, fw.Err):
+                self.side.append((KEY_PARTIAL_REST, "%s: only the %d bytes after the %d already read through .body_file "
+                                  "are captured" % (where, len(s.body) - s.cur, s.cur)))
         # ---- never consume the server's stream beyond the declared length
         if raw is not None and not slot.seek_orig:
             pos = raw.tell_()
@@ -1081,6 +1106,9 @@ class Run:
             exp = acc[0]
             return (classify(cfg, o, got, acc, neg), "%s returned %s, expected %s" % (
                 where, short_repr(got), short_repr(exp)))
+        if o == "copy" and copy_pos != 0:
+            return (KEY_COPY_EOF, "%s: the original's wsgi.input is left at offset %d after copy(); its body_file would "
+                    "read nothing" % (where, copy_pos))
         # ---- CONTENT_LENGTH tells the truth about a held body; every wrapper over the environ agrees
         s = ss[i]
         if s.mode == "held" and got != DISC:
@@ -1099,7 +1127,7 @@ def oracle_history(cfg, hist, final_check=True, via=None):
         res = run.step(i, o, a, via[k] if via else None)
         if res:
             return res
-    return run.finish() if final_check else None
+    return run.result(run.finish() if final_check else None)
 
 
 def oracle_two(cfg_a, hist_a, cfg_b, hist_b, order, shared_class=True):
@@ -1120,7 +1148,7 @@ def oracle_two(cfg_a, hist_a, cfg_b, hist_b, order, shared_class=True):
         res = run.finish()
         if res:
             return res
-    return None
+    return runs[0].result(None) or runs[1].result(None)
 
 
 SHAPES = ["ctor-body", "base-ctor-body", "ctor-body-none", "blank-POST-bytes", "blank-POST-str", "blank-POST-dict",
@@ -1201,7 +1229,7 @@ def _oracle_shape(shape, b, hist, via=None):
     res = run.finish()
     if res is None and raw is not None and raw.pos != 0:
         return ("construct:server-stream-touched", "%s: %d bytes were pulled from the wsgi.input that body= replaced" % (shape, raw.pos))
-    return res
+    return run.result(res)
 
 
 class ShortRaw(Raw):
@@ -1309,18 +1337,23 @@ def oracle_seekable_any(cfg):
                 path, len(cfg["data"]), cfg["cl"], short_repr(got), short_repr(want)))
         if raw.hwm > max(c, 0) and path != "copy":
             return ("overread:seekable-input", "%s read up to offset %d of a seekable input with CONTENT_LENGTH=%s" % (path, raw.hwm, cfg["cl"]))
-    # outside the claimed domain (handles on a seekable input of another length): what remains meaningful is that the
-    # handle IS the input file (documented: "body_file ... wsgi.input"), nothing raises, and what is read is the file's content
+    # the handles: by the text .body_file / .body_file_seekable deliver exactly the first CONTENT_LENGTH bytes too (or the
+    # error if there are fewer).  The code hands out the seekable file itself (pinned by the repo's
+    # test_body_file_getter_seekable): known deviation, reported under its own key.  .POST / call_application must not raise.
     for path in ("body_file", "body_file_seekable", "post", "app"):
         r, raw = make_request(cfg)
         try:
             if path in ("body_file", "body_file_seekable"):
                 f = getattr(r, path)
-                if f is not raw:
-                    return ("%s:seekable-input-not-handed-out" % path, "%s is not the seekable wsgi.input itself" % path)
-                got = f.read(3) + f.read()
-                if got != cfg["data"]:
-                    return ("%s:wrong-bytes:seekable-input" % path, "%s.read() returned %s" % (path, short_repr(got)))
+                try:
+                    got = f.read(3) + f.read()
+                except wr.DisconnectionError:
+                    got = DISC
+                if got != want:
+                    if f is raw and got == cfg["data"]:
+                        return (KEY_SEEKABLE_UNLIMITED, "%s of a seekable %d-byte input with CONTENT_LENGTH=%s is the input file itself: "
+                                "reading it returns %s, expected %s" % (path, len(cfg["data"]), cfg["cl"], short_repr(got), short_repr(want)))
+                    return ("%s:wrong-bytes:seekable-input" % path, "%s.read() returned %s, expected %s" % (path, short_repr(got), short_repr(want)))
             elif path == "post":
                 r.POST
             else:
